@@ -220,6 +220,8 @@ pub fn eval(dc: &Decaf, mode: Mode, bytes: &[u8], origin: &str) -> Outcome {
 }
 
 /// the byte-string domain; each entry = (bytes, origin label)
+pub static FOLD_VALID: std::sync::atomic::AtomicUsize = std::sync::atomic::AtomicUsize::new(0);
+
 pub fn domain(dc: &Decaf, quick: bool) -> Vec<(Vec<u8>, &'static str)> {
     let c = &dc.c;
     let f = dc.f();
@@ -331,10 +333,44 @@ pub fn domain(dc: &Decaf, quick: bool) -> Vec<(Vec<u8>, &'static str)> {
     for (s, _) in crate::sqrtclass::decode_ss(dc, quick) {
         out.push((to32(&s).to_vec(), "sqrt-class s"));
     }
+    // s solved for so that a named intermediate of the decoder (s^2, u1, u2, the square-root
+    // argument, the sign-check value) is a boundary class of comparison / negation / XOR-folding
+    for (s, _) in crate::sqrtclass::decode_by_intermediate(dc) {
+        out.push((to32(&s).to_vec(), "intermediate-class s"));
+    }
     // boundary classes of the multi-limb canonicity comparison with q, with the three spare top
     // bits clear and set
     for x in crate::fields::cmp_family(&q, 32) {
         out.push((to32(&x).to_vec(), "limb-wise neighbours of q"));
+    }
+    // aliases x = s + kq whose word-wise differences from s cancel under XOR (32- and 64-bit
+    // words): what a canonicity check that folds "input word != re-serialised word" with ^
+    // instead of | accepts. The family is the set of admissible carry patterns of s + kq
+    // (refmodel::foldfam); members whose s is a valid encoding come first.
+    {
+        let mut n_valid = 0usize;
+        for w in [64usize, 32] {
+            for k in 1..=3u32 {
+                let kq = &q * k;
+                let want = if quick { 4096 } else { 32768 };
+                let fam = refmodel::foldfam::xor_fold_collisions(&kq, 32, w, want, 0xC02);
+                let mut kept_any = 0usize;
+                for (s, x) in &fam {
+                    if *s >= q {
+                        continue;
+                    }
+                    let valid_s = dc.decode_spec(&to32(s)).is_ok();
+                    if valid_s {
+                        n_valid += 1;
+                    }
+                    if valid_s || kept_any < 16 {
+                        out.push((to32(x).to_vec(), "xor-fold alias s+kq"));
+                        kept_any += 1;
+                    }
+                }
+            }
+        }
+        FOLD_VALID.store(n_valid, std::sync::atomic::Ordering::Relaxed);
     }
     {
         // pseudo-random 32-byte strings (top three bits cleared for half of them)
@@ -382,6 +418,7 @@ pub fn run(ctx: &Arc<Ctx>, mode: Mode) {
     );
     let r = &ctx.report;
     r.set(&format!("{engine}_domain_size"), json!(n));
+    r.set(&format!("{engine}_xor_fold_aliases_of_valid_encodings"), json!(FOLD_VALID.load(std::sync::atomic::Ordering::Relaxed)));
     r.rule(format!("{engine}[{BUILD}]: {n} byte strings = valid encodings of reference points (deviation 0) + every alias s+kq / q-s / single bit flip / top-bit pattern / byte overwrite of each (deviation 1){} + complete interval [0,2^{}) + q +- 2^12 + 2^k, 2^k+-1 + every slice length 0..=80 x 6 fills; each string through every decoding entry point of this build; non-trivial = all (C01b: accepted strings only); distinct by bytes", if ctx.quick() { "" } else { " + all pairs of bit flips of 16 seeds (deviation 2)" }, if ctx.quick() { 16 } else { 20 }));
     r.assume("C02: Compress::No / Validate::No are unimplemented!() by design in the crate and are not exercised");
 }
